@@ -15,6 +15,7 @@ REVERTS = {
 }
 
 ASSESS = {
+ "C05-r8-m1": "An unwind guard in PriorityQueue::change_priority_by rebuilds the whole heap (about n comparisons) when the priority setter PANICS and the panic unwinds through the call. Ordinary calls behave and cost exactly as before. C05 bounds the cost of the operations, not of what runs while a panic of user code unwinds; the rebuilt heap is valid, so there is no safety consequence for C10 either. Not reported, not claimed.",
  "C03-r7-m1": "DoublePriorityQueue::change_priority rewritten as remove + push. Without a fault every observable is identical; the targeted element is lost only if Ord::cmp panics during the re-heapify inside remove and the panic is caught (the pair is dropped while unwinding, before push runs). After such an event length and contents are unspecified (C10) and there is no memory-safety consequence, so C10 is silent too. Outside C03 as quantified; not reported, not claimed.",
  "C13-r7-m1": "PriorityQueue's sorted iterator sifts the root down with a hole and no drop guard. Identical without faults; after a caught panic in Ord::cmp inside next() one heap slot is duplicated. C13 is quantified over fault-free use and is silent; the continued use of the iterator writes out of bounds, which C10 reports through its Consume operation (sorted iteration resumed after the caught panic).",
  "C13-r7-m2": "DoublePriorityQueue's sorted iterator keeps its own `remaining` counter and decrements it before popping: differs only when the first comparison of next_back panics and is caught (len() one too low, one element never yielded). No safety consequence (C10 silent), outside C13 as quantified (fault-free use). Not reported, not claimed.",
@@ -67,7 +68,7 @@ for d in sorted(os.listdir(ROOT)):
         origin = f"revert of fix commit {commit} in /repo"
     else:
         prop = d.split("-")[0]
-        rnd = "seventh" if "-r7-" in d else "sixth" if "-r6-" in d else "fifth" if "-r5-" in d else "fourth" if "-r4-" in d else ("third" if "-r3-" in d else ("second" if "-r2-" in d else "first"))
+        rnd = "eighth" if "-r8-" in d else "seventh" if "-r7-" in d else "sixth" if "-r6-" in d else "fifth" if "-r5-" in d else "fourth" if "-r4-" in d else ("third" if "-r3-" in d else ("second" if "-r2-" in d else "first"))
         origin = f"written by a fresh sub-agent ({rnd} round) that was given only the text of {prop} and a scratch worktree"
         notes = os.path.join(p, "notes.md")
         needs = open(notes).read().strip() if os.path.exists(notes) else ""
@@ -94,7 +95,7 @@ for d in sorted(os.listdir(ROOT)):
     rows.append((d, prop, sorted(caught), sorted(machinery), sorted(ran), own_final))
 
 with open(os.path.join(ROOT, "MATRIX.md"), "w") as f:
-    f.write("# Seeded changes x quick checks\n\n`X` = the check exited 1 with a VIOLATION line and a replay that reproduced twice, in at least one of the runs recorded under `<change>/evals/`; `.` = run and silent; blank = not run against this change (the third to seventh rounds were run against their own property, C03 and C04 only). Entries are a lower bound: the all-checks pass was made with the harness as it was when the change arrived, later strengthening only adds detections. Column `own` = reported by the check of the property it was written against, with the FINAL harness.\nGenerated by tools/make_seeded_meta.py.\n\n")
+    f.write("# Seeded changes x quick checks\n\n`X` = the check exited 1 with a VIOLATION line and a replay that reproduced twice, in at least one of the runs recorded under `<change>/evals/`; `.` = run and silent; blank = not run against this change (the third to eighth rounds were run against their own property, C03 and C04 only). Entries are a lower bound: the all-checks pass was made with the harness as it was when the change arrived, later strengthening only adds detections. Column `own` = reported by the check of the property it was written against, with the FINAL harness.\nGenerated by tools/make_seeded_meta.py.\n\n")
     f.write("| change | for | " + " | ".join(p[1:] for p in PROPS) + " | own |\n")
     f.write("|---|---|" + "---|" * len(PROPS) + "---|\n")
     own = 0
